@@ -2,9 +2,10 @@ import time, vf
 PID = "C10"
 H = vf.VERIF + "/checks/C10/harness.cpp"
 SCHED = [vf.VERIF + "/engine/sched/sched.cpp", vf.VERIF + "/engine/sched/log_stub.cpp"]
+# patterns 10+p: two sessions on one AsyncPipe object (initialize/cleanup twice), second session = pattern p
 # (buff_size, min, max, pattern, threads)   patterns 0,1: one producer (3 threads); 2,3: two producers (4 threads); 4: three producers
-CFG1 = [(1,1,1,0),(1,1,2,0),(2,1,1,0),(2,1,2,1),(2,2,3,0),(4,1,2,1),(1,1,1,1)]
-CFG2 = [(1,1,1,2),(2,1,2,2),(2,1,1,3),(2,2,3,3),(4,1,2,3),(2,1,2,5),(1,1,1,5)]
+CFG1 = [(1,1,1,0),(1,1,2,0),(2,1,1,0),(2,1,2,1),(2,2,3,0),(4,1,2,1),(1,1,1,1),(1,1,1,10),(2,1,2,10),(2,2,3,10),(2,1,2,11)]
+CFG2 = [(1,1,1,2),(2,1,2,2),(2,1,1,3),(2,2,3,3),(4,1,2,3),(2,1,2,5),(1,1,1,5),(2,1,2,12)]
 CFG3 = [(2,1,2,4)]
 def cmds(exe, cfgs, bound, tagp, only):
     c = [("%s:b%d_%d_%d_p%d" % ((tagp,) + s), [exe] + [str(x) for x in s] + [str(bound)]) for s in cfgs]
@@ -32,5 +33,5 @@ def main(tier, args):
     vf.finish(PID, tier, res, t0,
               rule="stateless DFS over all interleavings at mutex/trylock/condvar/thread operations of the real AsyncPipe (producers, background thread, cleanup), "
                    "timed-flush expiry as a bounded deviation; preemptions+deviations <= %d (1 producer), <= %d (2 producers), <= %d (3 producers); ASan build <= %d; TSan under the scheduler <= %d; "
-                   "%d configurations (buffer size 1/2/4, min/max buffers, append sizes <,=,> buffer)" % (b1, b2, b3, ba, bt, len(CFG1 + CFG2 + CFG3)),
+                   "%d configurations (buffer size 1/2/4, min/max buffers, append sizes <,=,> buffer; 5 of them re-initialise the same pipe object for a second session)" % (b1, b2, b3, ba, bt, len(CFG1 + CFG2 + CFG3)),
               assumptions=["appends concurrent with cleanup() are outside the property (DESIGN 1.7)", "sync points = pthread mutex/trylock/cond/create/join"])
